@@ -24,13 +24,28 @@ def attach_cases():
     import itertools
     kinds = [('(', ')'), ('[', ']'), ('case', 'end'), ('if', 'end if'), ('for', 'end loop'), ('begin', 'end'),
              ('IF', 'END\nIF'), ('foreach', 'end\tloop'), ('If', 'End  If'), ('CASE', 'END')]
-    inner = ['x', 'x ,', 'x as', 'x ::', 'x :=', 'x =', 'x .', 'x , y ,', '1 ,', 'x where y', '', 'x , 1 +', 'x and']
+    inner = ['x', 'x ,', 'x as', 'x ::', 'x :=', 'x =', 'x .', 'x , y ,', '1 ,', 'x where y', '', 'x , 1 +', 'x and',
+             # words that mean something else after an opener elsewhere (FOR UPDATE, IF EXISTS, CASE-less WHEN, BEGIN WORK)
+             'update', 'share x', 'exists x', 'not exists', 'when x then', 'work', 'transaction ;', 'each row']
     trail = ['', '--c\n', ' /*c*/', '/*c*/', ' --c\n', '\n--c\n', ' /*c*/ /*d*/']
     follow = ['', 'x', ', x', '; x', ' x', ' as y', ' = 1']
     prefix = ['', 'select ', '( ', 'a ']
     out = []
     for (o, c), i, t, f, p in itertools.product(kinds, inner, trail, follow, prefix):
         out.append((p, o, ' ' + i + ' ' if i else ' ', c, t, f))
+    return out
+
+
+def deep_cases(tier):
+    """a pair of every kind below d nested groups of every kind, d up to far beyond any fragment bound (a matcher
+    that stops descending at some depth, or loses a level per kind, shows only there)"""
+    kinds = [('(', ')'), ('a[', ']'), ('case', 'end'), ('if', 'end if'), ('for', 'end loop'), ('begin', 'end')]
+    depths = [1, 2, 3, 7, 31, 63, 64, 65, 99, 100, 101, 102, 127, 128, 129, 150] + ([200, 249] if tier == 'thorough' else [])
+    out = []
+    for (oo, oc), (io, ic), d in __import__('itertools').product(kinds, kinds, depths):
+        out.append(((oo + ' ') * d, io + ' x ' + ic, (' ' + oc) * d))
+        if d <= 101:
+            out.append(((oo + ' ') * (d // 2) + '( ' * (d - d // 2), io + ' ' + ic, ' )' * (d - d // 2) + (' ' + oc) * (d // 2)))
     return out
 
 
@@ -60,7 +75,7 @@ def _evaluate(text, frags, space, acc, sqlparse):
 
 def run(tier, seed):
     merged, sizes = e1.run(_spaces(tier), _evaluate, seed, bits=26 if tier == 'thorough' else 23,
-                           setup=_setup, extra_cases=[('ATTACH product', attach_cases(), '')])
+                           setup=_setup, extra_cases=[('ATTACH product', attach_cases(), ''), ('DEEP kind x kind x depth', deep_cases(tier), '')])
     cov = {
         'evaluations': merged['n'], 'distinct_nontrivial': merged['distinct'],
         'rule': 'every sequence of 1..n fragments over the bracket/block drivers (D1core, BR, D1, D6) '
